@@ -9,6 +9,7 @@ destination header).  The source is a parameter that no definition returns: noth
 * `dest_prefix_preserved` : the destination's blocks are only appended to — what it held before is untouched;
 * `refs_resolve`          : every re-assigned child reference resolves inside the destination (a reference that
                             did not resolve in the source is left as it was — the only exception);
+* `all_added_refs_resolve` : the same for every block added at any depth below the clone;
 * `clone_has_child_content`: position by position the block a reference is re-assigned to carries the type and
                             payload of the source child, and is one of the appended blocks.
 -/
@@ -32,6 +33,17 @@ theorem clone_has_child_content (fuel : Nat) (src dest : List Blk) (ks : List (O
     ∃ j b, (cloneKids fuel src dest ks pO pN).2[p]? = some (some j) ∧ dest.length ≤ j ∧
       (cloneKids fuel src dest ks pO pN).1[j]? = some b ∧ b.ty = c.ty ∧ b.payload = c.payload :=
   cloneKids_content fuel src dest ks pO pN hf p i c hk hc
+
+/-- every reference of every block the clone added — at any depth — resolves inside the destination (or never resolved
+in the source) -/
+theorem all_added_refs_resolve (fuel : Nat) (src dest : List Blk) (ks : List (Option Nat)) (pO pN : Option Nat)
+    (hf : fuelOK fuel src dest ks pO pN = true) (idx : Nat) (b : Blk) (hidx : dest.length ≤ idx)
+    (hb : (cloneKids fuel src dest ks pO pN).1[idx]? = some b) :
+    ∀ k ∈ b.kids, ∀ j, k = some j → j < (cloneKids fuel src dest ks pO pN).1.length ∨ src[j]? = none := by
+  intro k hk j hj
+  have := cloneKids_all_settled fuel src dest ks pO pN hf idx b hidx hb k hk
+  subst hj
+  exact this
 
 /-! ### a concrete run (non-vacuity): shape → {data, shader → texture set}, skin instance with a parent pointer -/
 
